@@ -10,18 +10,18 @@ namespace ExprModel
 /-- no error and no panic recorded -/
 def Good (st : CState) : Prop := st.err = none ∧ st.panic = none
 
-theorem fail_colls (st : CState) (loc : Loc) (c : ErrClass) : (st.fail loc c).colls = st.colls := by
+theorem fail_colls (st : CState) (loc : Loc) (c : CheckErrClass) : (st.fail loc c).colls = st.colls := by
   unfold CState.fail; split <;> rfl
 
-theorem fail_panic (st : CState) (loc : Loc) (c : ErrClass) : (st.fail loc c).panic = st.panic := by
+theorem fail_panic (st : CState) (loc : Loc) (c : CheckErrClass) : (st.fail loc c).panic = st.panic := by
   unfold CState.fail; split <;> rfl
 
-theorem fail_err_isSome (st : CState) (loc : Loc) (c : ErrClass) : (st.fail loc c).err.isSome := by
+theorem fail_err_isSome (st : CState) (loc : Loc) (c : CheckErrClass) : (st.fail loc c).err.isSome := by
   unfold CState.fail; split
   · rfl
   · rename_i h; simp [h]
 
-theorem fail_not_good (st : CState) (loc : Loc) (c : ErrClass) : ¬ Good (st.fail loc c) := by
+theorem fail_not_good (st : CState) (loc : Loc) (c : CheckErrClass) : ¬ Good (st.fail loc c) := by
   intro h
   have := fail_err_isSome st loc c
   rw [h.1] at this; cases this
@@ -177,7 +177,7 @@ theorem binary_case (cfg : CheckCfg) (m : Meta) (op : String) (l r : Node) (ihl 
   rcases hr : visit cfg r st1 with ⟨r', rt, st2⟩
   simp only [hl, hr] at h
   obtain ⟨c, b, g⟩ := h
-  obtain ⟨cf, bf, gf⟩ := finish (binaryRule op lt rt) m.loc st2 (fun t => setKd (.binary m op l' r') t)
+  obtain ⟨cf, bf, gf⟩ := finish (binaryRule cfg.dt op lt rt) m.loc st2 (fun t => setKd (.binary m op l' r') t)
   simp only [visit, hl, hr]
   refine ⟨cf.trans c, fun hb => bf (b hb), ?_⟩
   intro hg
@@ -250,25 +250,48 @@ theorem index_case (cfg : CheckCfg) (m : Meta) (x i : Node) (ihl : VSpec cfg x)
 theorem pair_case (cfg : CheckCfg) (m : Meta) (k v : Node) (ihl : VSpec cfg k)
     (ihr : VSpec cfg v) : VSpec cfg (.pair m k v) := by
   intro st
-  have h := two_children cfg k v ihl ihr st
-  rcases hl : visit cfg k st with ⟨l', lt, st1⟩
-  rcases hr : visit cfg v st1 with ⟨r', rt, st2⟩
-  simp only [hl, hr] at h
-  obtain ⟨c, b, g⟩ := h
-  simp only [visit, hl, hr]
-  refine ⟨c, b, ?_⟩
+  have h1 := ihl st
+  rcases hk : visit cfg k st with ⟨k', kt, st1⟩
+  rw [hk] at h1
+  obtain ⟨c1, b1, g1⟩ := h1
+  obtain ⟨cf, bf, gf⟩ := finish (pairKeyRule cfg.dt kt) k'.loc st1 (fun _ => k')
+  rcases hp : orFail (pairKeyRule cfg.dt kt) k'.loc st1 with ⟨pt, st2⟩
+  rw [hp] at cf bf gf
+  simp only [] at cf bf gf
+  have h2 := ihr st2
+  rcases hv : visit cfg v st2 with ⟨v', vt, st3⟩
+  rw [hv] at h2
+  obtain ⟨c2, b2, g2⟩ := h2
+  simp only [visit, hk, hp, hv]
+  refine ⟨c2.trans (cf.trans c1), fun hb => b2 (bf (b1 hb)), ?_⟩
   intro hg
   simp only [synth]
-  have g := g hg
+  have g1 := g1 hg
   cases hs1 : synth cfg st.colls k with
-  | none => rw [hs1] at g; simp only [] at g ⊢; exact g
-  | some lt' =>
-    cases hs2 : synth cfg st.colls v with
-    | none => rw [hs1, hs2] at g; simp only [] at g ⊢; exact g
-    | some rt' =>
-      rw [hs1, hs2] at g
-      simp only [] at g ⊢
-      exact ⟨trivial, g.2.2⟩
+  | none => rw [hs1] at g1; simp only []; exact b2 (bf g1)
+  | some kt' =>
+    rw [hs1] at g1
+    obtain ⟨e1, gd1⟩ := g1
+    simp only at e1
+    subst e1
+    have gf := gf gd1
+    cases hpk : Except.toOption' (pairKeyRule cfg.dt kt) with
+    | none =>
+      rw [hpk] at gf
+      have hbad := b2 gf
+      cases hs2 : synth cfg st.colls v with
+      | none => simp only []; exact hbad
+      | some vt' => simp only [hpk, Option.isSome_none, Bool.false_eq_true, if_false]; exact hbad
+    | some pt' =>
+      rw [hpk] at gf
+      have g2 := g2 gf.2
+      rw [cf, c1] at g2
+      cases hs2 : synth cfg st.colls v with
+      | none => rw [hs2] at g2; simp only []; exact g2
+      | some vt' =>
+        rw [hs2] at g2
+        simp only [hpk, Option.isSome_some, if_true]
+        exact ⟨trivial, g2.2⟩
 
 theorem ident_case (cfg : CheckCfg) (m : Meta) (name : String) (ns : Bool) : VSpec cfg (.ident m name ns) := by
   intro st
@@ -532,7 +555,7 @@ theorem slice_case (cfg : CheckCfg) (m : Meta) (x : Node) (f t : Option Node) (i
   rw [hx] at h1
   obtain ⟨c1, b1, g1⟩ := h1
   simp only [visit, hx]
-  by_cases hsl : sliceable tx = true
+  by_cases hsl : sliceable cfg.dt tx = true
   · simp only [hsl, if_true]
     have h2 := ihf st1
     rcases hf : visitBound cfg f st1 with ⟨f', fok, st2⟩
@@ -617,7 +640,7 @@ theorem slice_case (cfg : CheckCfg) (m : Meta) (x : Node) (f t : Option Node) (i
               exact b3 g2
           · have h'' : fok = false := by simpa using h
             simp only [h'', Bool.not_false, if_true]; exact g2
-  · have hsl' : sliceable tx = false := by simpa using hsl
+  · have hsl' : sliceable cfg.dt tx = false := by simpa using hsl
     simp only [hsl', Bool.false_eq_true, if_false]
     refine ⟨(fail_colls st1 _ _).trans c1, fun _ => fail_not_good st1 _ _, ?_⟩
     intro hg
@@ -709,7 +732,7 @@ theorem method_case (cfg : CheckCfg) (m : Meta) (x : Node) (name : String) (args
   cases hmt : methodTarget cfg.dn t name with
   | none =>
     simp only []
-    obtain ⟨cf, bf, gf⟩ := finish (if (!ns) = true then Except.error ErrClass.noMethod else Except.ok none) m.loc st1
+    obtain ⟨cf, bf, gf⟩ := finish (if (!ns) = true then Except.error CheckErrClass.noMethod else Except.ok none) m.loc st1
       (fun r => setKd (.method m x' name args ns) r)
     refine ⟨cf.trans c1, fun hb => bf (b1 hb), ?_⟩
     intro hg
@@ -787,7 +810,7 @@ theorem func_case (cfg : CheckCfg) (m : Meta) (name : String) (args : List Node)
   cases hmt : funcTargetC cfg name with
   | none =>
     simp only []
-    obtain ⟨cf, bf, gf⟩ := finish (if (!cfg.strict) = true then Except.ok (defaultOr cfg) else Except.error ErrClass.unknownFunc)
+    obtain ⟨cf, bf, gf⟩ := finish (if (!cfg.strict) = true then Except.ok (defaultOr cfg) else Except.error CheckErrClass.unknownFunc)
       m.loc st (fun r => setKd (.func m name args fast) r)
     refine ⟨cf, bf, ?_⟩
     intro hg
@@ -838,10 +861,10 @@ theorem builtin_case (cfg : CheckCfg) (m : Meta) (name : String) (args : List No
     (ih : AllV cfg args) : VSpec cfg (.builtin m name args) := by
   intro st
   have unknown : ∀ (as : List Node),
-      ((setKd (Node.builtin m name as) ifaceTy, ifaceTy, st.fail m.loc ErrClass.unknownBuiltin) :
+      ((setKd (Node.builtin m name as) ifaceTy, ifaceTy, st.fail m.loc CheckErrClass.unknownBuiltin) :
         Node × OTy × CState).2.2.colls = st.colls ∧
-      (¬ Good st → ¬ Good (st.fail m.loc ErrClass.unknownBuiltin)) ∧
-      (Good st → ¬ Good (st.fail m.loc ErrClass.unknownBuiltin)) :=
+      (¬ Good st → ¬ Good (st.fail m.loc CheckErrClass.unknownBuiltin)) ∧
+      (Good st → ¬ Good (st.fail m.loc CheckErrClass.unknownBuiltin)) :=
     fun _ => ⟨fail_colls st _ _, fun _ => fail_not_good st _ _, fun _ => fail_not_good st _ _⟩
   match args, ih with
   | [], _ =>
